@@ -638,7 +638,7 @@ func (w *accWorld) runWord(b Beh, tr *Tracer) error {
 		// wait until the server has dropped the sessions, so that the next word starts from a quiet server
 		for _, cs := range conns {
 			for i := 0; i < 300; i++ {
-				if s, _ := w.tr.Ctx.Get(cs.local).(hap.Session); s == nil {
+				if sessionOf(w.tr.Ctx, cs.local) == nil {
 					break
 				}
 				time.Sleep(time.Millisecond)
